@@ -11,6 +11,16 @@ CLAIMED = {
          "positive V,S,h,D,T: the closed SqRA formula with one-sided cap on the pattern, zeros off it, zero row sums, detailed balance "
          "under the cap, shift invariance and linearity in D. Right level: the property is a universal statement over reals that "
          "sampling cannot settle; the bound is the cell count.", "§5 C01"),
+ "C05": ("For every n_o<=4 (thorough 5), T in 2..4 (thorough 6) and every symmetric direction-adjacency pattern the solver proves, for ALL "
+         "strictly increasing positive radii and ALL positive areas/arcs/angles: every cell volume, every pair's adjacency/border/distance "
+         "entry equals the closed form of the statement (zero otherwise), identical stored pattern and entry order of the three matrices, "
+         "shell/total volume sums and radial face sums given sum(area)=4*pi, boundary interleaving. The bound is the grid size; "
+         "unequal spacing and T>=3 (where index slips show) are inside it.", "§5 C05"),
+ "C12": ("For every trajectory length L<=6 (thorough 9), n<=3 (4) cells, tau<=3 (4), both window modes: ALL trajectories (every cell "
+         "sequence and every NaN subset) are covered by one symbolic run per shape; proved: T_ij*s_i = c_ij+c_ji against an independently "
+         "written window-count oracle, zero rows for unvisited cells, row sums, range, detailed balance w.r.t. visit counts, reversal "
+         "invariance in sliding mode. Uses an assume/guarantee cut at the count matrix (stage 1: counts = oracle; stage 2: normalisation on "
+         "fresh integer counts).", "§5 C12"),
 }
 NA = {
  "C03": "Claim is that Qhull's SphericalVoronoi regions/areas are the true nearest-neighbour cells: compiled geometry with no encodable source; a stub would assume the property (the symmetric assembly around it is verified under C04).",
